@@ -28,6 +28,7 @@ For documentation, see mocksupport.rst.
 import os
 import time
 import re
+from contextlib import contextmanager
 from xml.dom import minidom
 
 from pywbem import WBEMConnection, CIMClass, CIMClassName, \
@@ -618,6 +619,22 @@ class FakedWBEMConnection(WBEMConnection):
     #
     ###########################################################################
 
+    @contextmanager
+    def _unchanged_if_failed(self):
+        """
+        Context manager that sets the CIM repository back to its content
+        at entry if its body raises an exception, and that forgets the
+        classes the MOF compiler interface has cached in that case.
+        """
+        # pylint: disable=protected-access
+        content = self.cimrepository._save_content()
+        try:
+            yield
+        except Exception:
+            self.cimrepository._restore_content(content)
+            self._mofwbemconnection.classes = NocaseDict()
+            raise
+
     def compile_mof_file(self, mof_file, namespace=None, search_paths=None,
                          verbose=None):
         """
@@ -692,7 +709,8 @@ class FakedWBEMConnection(WBEMConnection):
                                   search_paths=search_paths,
                                   verbose=verbose, **log_func_kwargs)
 
-            mofcomp.compile_file(mof_file, namespace)
+            with self._unchanged_if_failed():
+                mofcomp.compile_file(mof_file, namespace)
 
     def compile_mof_string(self, mof_str, namespace=None, search_paths=None,
                            verbose=None):
@@ -766,7 +784,8 @@ class FakedWBEMConnection(WBEMConnection):
                                   search_paths=search_paths,
                                   verbose=verbose, **log_func_kwargs)
 
-            mofcomp.compile_string(mof_str, namespace)
+            with self._unchanged_if_failed():
+                mofcomp.compile_string(mof_str, namespace)
 
     def compile_schema_classes(self, class_names, schema_pragma_files,
                                namespace=None, verbose=False):
@@ -845,14 +864,15 @@ class FakedWBEMConnection(WBEMConnection):
             # Build the pragma file and compile for each pragma file in
             # schema_pragma_files. The search path for each compile is the
             # directory containing that schema_pragma_file
-            for schema_pragma_file in schema_pragma_files:
-                search_path = os.path.dirname(schema_pragma_file)
-                compile_pragma = build_schema_mof(
-                    class_names, schema_pragma_file)
-                self.compile_mof_string(compile_pragma,
-                                        namespace=namespace,
-                                        search_paths=search_path,
-                                        verbose=verbose)
+            with self._unchanged_if_failed():
+                for schema_pragma_file in schema_pragma_files:
+                    search_path = os.path.dirname(schema_pragma_file)
+                    compile_pragma = build_schema_mof(
+                        class_names, schema_pragma_file)
+                    self.compile_mof_string(compile_pragma,
+                                            namespace=namespace,
+                                            search_paths=search_path,
+                                            verbose=verbose)
 
     ######################################################################
     #
@@ -916,8 +936,9 @@ class FakedWBEMConnection(WBEMConnection):
             self._mainprovider.validate_namespace(namespace)
 
             if isinstance(objects, list):
-                for obj in objects:
-                    self.add_cimobjects(obj, namespace=namespace)
+                with self._unchanged_if_failed():
+                    for obj in objects:
+                        self.add_cimobjects(obj, namespace=namespace)
 
             else:
                 obj = objects
